@@ -38,7 +38,7 @@ def run(ck):
     ck.rule = ("six-file layouts (two command-line files, one in a sub-directory; includes found in the working directory, through -I, through -S and next "
                "to the sub-directory file) with classes whose members sit in random __published/public/protected/private sections (static, deleted, template, "
                "rvalue-reference, protected-type signatures, a private nested class with published members), free functions, globals, enums and macros in "
-               "and out of __begin_publish regions x {default, -promiscuous}: for every declared entity, presence in the database against the Lean filter "
+               "and out of __begin_publish regions, a command (.N) file with ignoremember / ignorefile / ignoretype x {default, -promiscuous}: for every declared entity, presence in the database against the Lean filter "
                "model on the ground-truth attributes; nothing from the -I/-S/beside files may appear at all; distinct = distinct (layout, option set)")
     n = 12 if quick else 400
     done = 0
@@ -83,6 +83,7 @@ def run(ck):
                 for e in ents:
                     a = dict(e.attrs)
                     a.pop("hidden_class", None)
+                    a.pop("ignoretype", None)
                     if e.kind == "struct":
                         a["anymember"] = any(v <= min_vis for v in a.pop("member_vis"))
                     e2 = exportgen.Ent(e.kind, e.name, a, e.cls)
@@ -96,6 +97,8 @@ def run(ck):
                         want = want and byname[e.cls]
                     if e.attrs.get("hidden_class"):
                         want = False          # the enclosing nested class is private: never fully defined
+                    if e.attrs.get("ignoretype") and e.kind != "struct":
+                        want = False          # `ignoretype` in the command file: the type keeps its entry but is never defined (no members)
                     if e.kind in ("function", "method"):
                         got = e.name in idx["function"]
                     elif e.kind in ("struct", "enum"):
